@@ -299,6 +299,66 @@ fn maps_long(thorough: bool, threads: usize, alpha: &[X]) -> Ctx {
     })
 }
 
+/// clip on an element type whose order is hand-written (durations with a calendar part): ordered by (months, rest)
+fn check_durations(word: &[u8], ctx: &mut Ctx) {
+    use tevec::prelude::*;
+    const TD: [&str; 6] = ["-1mo", "0s", "10d", "1mo", "1mo1d", "3mo"];
+    let fam = "maps-durations";
+    ctx.states += 1;
+    ctx.transitions += 1;
+    ctx.fam(fam).states += 1;
+    ctx.nontrivial(fam, hash_bytes(word));
+    let tds: Vec<TimeDelta> = TD.iter().map(|t| TimeDelta::parse(t).unwrap()).collect();
+    let key = |t: &TimeDelta| (t.months, t.inner);
+    // symbol 0 = null, 1.. = durations
+    let mk = |s: u8| if s == 0 { TimeDelta::nat() } else { tds[s as usize - 1] };
+    let v: Vec<TimeDelta> = word.iter().map(|s| mk(*s)).collect();
+    let show = |t: &TimeDelta| if t.is_none() { "null".to_string() } else { TD[tds.iter().position(|d| key(d) == key(t)).unwrap_or(0)].to_string() };
+    for lo in 0..=TD.len() as u8 {
+        for hi in 0..=TD.len() as u8 {
+            if lo != 0 && hi != 0 && key(&mk(lo)) > key(&mk(hi)) {
+                continue; // lower > upper: nothing claimed (DESIGN 5.6)
+            }
+            let (l, h) = (mk(lo), mk(hi));
+            let want: Vec<TimeDelta> = v
+                .iter()
+                .map(|x| {
+                    if x.is_none() {
+                        *x
+                    } else if lo != 0 && key(x) < key(&l) {
+                        l
+                    } else if hi != 0 && key(x) > key(&h) {
+                        h
+                    } else {
+                        *x
+                    }
+                })
+                .collect();
+            for opt_view in [false, true] {
+                let got = catch(|| -> Vec<String> {
+                    if opt_view {
+                        v.opt().titer().vclip(l.to_opt(), h.to_opt()).map(|x| x.map_or("null".to_string(), |t| show(&t))).collect()
+                    } else {
+                        v.titer().vclip(l, h).map(|x| show(&x)).collect()
+                    }
+                });
+                let want_s: Vec<String> = want.iter().map(show).collect();
+                ctx.eval(fam, hash_bytes(format!("{got:?}").as_bytes()));
+                if !matches!(&got, Outcome::Ok(g) if *g == want_s) {
+                    ctx.violation(Violation {
+                        entry: "vclip on TimeDelta".into(),
+                        finding: None,
+                        size: word.len() * 100,
+                        case: json!({"family": fam, "word": word, "series": v.iter().map(show).collect::<Vec<_>>(), "lower": show(&l), "upper": show(&h), "elem": if opt_view { "Option<TimeDelta> (option view)" } else { "TimeDelta" }}),
+                        expected: format!("{want_s:?}"),
+                        got: format!("{got:?}"),
+                    });
+                }
+            }
+        }
+    }
+}
+
 /// infinities are ordinary values for shifts, fills, clips and abs; a difference or ratio of two infinities is
 /// not a number, hence null
 fn inf_alpha() -> Vec<X> {
@@ -343,7 +403,9 @@ fn main() {
             std::process::exit(2)
         });
         let mut ctx = Ctx::new();
-        if stored["case"]["family"] == "maps-inf" {
+        if stored["case"]["family"] == "maps-durations" {
+            check_durations(&syms_from_json(&stored["case"]["word"]), &mut ctx);
+        } else if stored["case"]["family"] == "maps-inf" {
             check_inf(&syms_from_json(&stored["case"]["word"]), &mut ctx);
         } else if stored["case"]["family"] == "maps-nan-kinds" {
             check_nan_kinds(&syms_from_json(&stored["case"]["word"]), &fam.alpha, &mut ctx);
@@ -358,6 +420,8 @@ fn main() {
     }
     let mut total = explore_tree(&fam, run.threads);
     total.merge(maps_long(!run.quick(), run.threads, &fam.alpha));
+    let td_words = all_words_upto(7, run.pick(3, 4));
+    total.merge(par_items(&td_words, run.threads, |w, ctx| check_durations(w, ctx)));
     let inf_words = all_words_upto(inf_alpha().len(), run.pick(4, 5));
     total.merge(par_items(&inf_words, run.threads, |w, ctx| check_inf(w, ctx)));
     let nan_words: Vec<Vec<u8>> = all_words_upto(fam.alpha.len(), run.pick(5, 6)).into_iter().filter(|w| w.contains(&0)).collect();
